@@ -5,10 +5,12 @@ import (
 	"encoding/json"
 	"fmt"
 	"go/types"
+	"os"
 	"os/exec"
 	"path/filepath"
 	"reflect"
 	"regexp"
+	"sort"
 	"strings"
 	"sync"
 
@@ -44,10 +46,11 @@ type ProbeOut struct {
 }
 
 type SchemaInfo struct {
-	mu    sync.Mutex
-	Probe ProbeOut
-	Plans map[string][]string // by normalised text
-	repo  string
+	Statements []string
+	mu         sync.Mutex
+	Probe      ProbeOut
+	Plans      map[string][]string // by normalised text
+	repo       string
 }
 
 var sqlStart = regexp.MustCompile(`(?is)^\s*(select|with|insert|update|delete)\b`)
@@ -121,7 +124,7 @@ func (P *Program) loadSchema() error {
 	if err != nil {
 		return err
 	}
-	si := &SchemaInfo{Probe: po, Plans: map[string][]string{}, repo: P.RepoDir}
+	si := &SchemaInfo{Probe: po, Plans: map[string][]string{}, repo: P.RepoDir, Statements: stmts}
 	for s, lines := range po.Plans {
 		si.Plans[sqlm.NormSQL(s)] = lines
 	}
@@ -268,10 +271,10 @@ func (in *Interp) newDBState() *dbState {
 
 type sqlEnv struct{ in *Interp }
 
-func (e sqlEnv) Ctx() *smt.Ctx               { return e.in.C }
-func (e sqlEnv) Branch(c *smt.Term) bool     { return e.in.branch(c) }
-func (e sqlEnv) Unsupported(msg string)      { panic(unsupported{msg}) }
-func (e sqlEnv) Note(msg string)             { e.in.path.noteAssumption(msg) }
+func (e sqlEnv) Ctx() *smt.Ctx                        { return e.in.C }
+func (e sqlEnv) Branch(c *smt.Term) bool              { return e.in.branch(c) }
+func (e sqlEnv) Unsupported(msg string)               { panic(unsupported{msg}) }
+func (e sqlEnv) Note(msg string)                      { e.in.path.noteAssumption(msg) }
 func (e sqlEnv) Fresh(p string, s smt.Sort) *smt.Term { return e.in.C.Fresh(p, s) }
 func (e sqlEnv) Concretize(t *smt.Term, what string) int64 {
 	return e.in.concretize(t, what).Int64()
@@ -878,4 +881,213 @@ func hDBOf(v value) *dbState {
 		}
 	}
 	return (*p).(*opaque).data.(*dbHandle).st
+}
+
+// ---- write-statement enumeration (C03 immutability)
+
+func (in *Interp) writeStatements(st *dbState, table string) []string {
+	si := in.P.Schema.(*SchemaInfo)
+	var out []string
+	for _, s := range si.Statements {
+		p, err := sqlm.Parse(s)
+		if err != nil {
+			if strings.Contains(strings.ToLower(s), table) && !strings.HasPrefix(strings.ToLower(strings.TrimSpace(s)), "select") && !strings.HasPrefix(strings.ToLower(strings.TrimSpace(s)), "with") {
+				panic(unsupported{"UNSUPPORTED sql (write statement not parsed): " + err.Error() + ": " + sqlm.NormSQL(s)})
+			}
+			continue
+		}
+		switch x := p.(type) {
+		case *sqlm.Insert:
+			if x.Table == table {
+				out = append(out, s)
+			}
+		case *sqlm.Update:
+			if x.Table == table {
+				out = append(out, s)
+			}
+		case *sqlm.Delete:
+			if x.Table == table {
+				out = append(out, s)
+			}
+		}
+	}
+	sort.Strings(out)
+	return out
+}
+
+func (in *Interp) freshSQL(k sqlm.Kind) sqlm.Val {
+	c := in.C
+	switch k {
+	case sqlm.KStr:
+		t := in.newNondet("arg", "str", smt.Str)
+		in.constrainStr(t)
+		return sqlm.Val{K: k, T: t, Null: c.False()}
+	case sqlm.KBool:
+		return sqlm.Val{K: k, T: in.newNondet("arg", "bool", smt.Bool), Null: c.False()}
+	case sqlm.KTime:
+		t := in.newNondet("arg", "time", smt.BV(64))
+		in.assumeSilently(c.BVSLe(c.BVConstI(0, 64), t))
+		in.assumeSilently(c.BVSLe(t, c.BVConstI(1<<32-1, 64)))
+		return sqlm.Val{K: k, T: t, Null: c.False()}
+	}
+	return sqlm.Val{K: k, T: in.newNondet("arg", "i64", smt.BV(64)), Null: c.False()}
+}
+
+type wsParam struct {
+	Name string `json:"name"`
+	Idx  int    `json:"idx"`
+	Kind string `json:"kind"`
+	List bool   `json:"list"`
+}
+type wsStmt struct {
+	SQL    string    `json:"sql"`
+	Params []wsParam `json:"params"`
+}
+
+// arbitraryArgs binds every parameter of a write statement to a fresh value of the kind of the
+// column it is assigned to or compared with (IN lists get two elements).
+func (in *Interp) arbitraryArgs(t *sqlm.Table, p interface{}, spec *[]wsParam, dry bool) *sqlm.Args {
+	a := &sqlm.Args{Named: map[string]sqlm.ParamVal{}}
+	bound := map[string]bool{}
+	bind := func(prm sqlm.Param, k sqlm.Kind, list bool) {
+		key := fmt.Sprintf("%s#%d", prm.Name, prm.Idx)
+		if bound[key] {
+			return
+		}
+		bound[key] = true
+		if spec != nil {
+			n := ""
+			if prm.Idx < 0 {
+				n = strings.TrimPrefix(prm.Name, ":")
+			}
+			*spec = append(*spec, wsParam{Name: n, Idx: prm.Idx, Kind: k.String(), List: list})
+		}
+		if dry {
+			return
+		}
+		var pv sqlm.ParamVal
+		if list {
+			pv = sqlm.ParamVal{IsList: true, List: []sqlm.Val{in.freshSQL(k), in.freshSQL(k)}}
+		} else {
+			pv = sqlm.ParamVal{V: in.freshSQL(k)}
+		}
+		if prm.Idx >= 0 {
+			for len(a.Pos) <= prm.Idx {
+				a.Pos = append(a.Pos, sqlm.ParamVal{V: sqlm.Val{K: sqlm.KInt, T: in.C.BVConstI(0, 64), Null: in.C.True()}})
+			}
+			a.Pos[prm.Idx] = pv
+		} else {
+			a.Named[strings.TrimPrefix(prm.Name, ":")] = pv
+		}
+	}
+	colKind := func(name string) sqlm.Kind {
+		if ci := t.Col(name); ci >= 0 {
+			return t.Cols[ci].K
+		}
+		return sqlm.KStr
+	}
+	var walk func(e sqlm.Expr)
+	walk = func(e sqlm.Expr) {
+		switch x := e.(type) {
+		case sqlm.Bin:
+			if cr, ok := x.L.(sqlm.ColRef); ok {
+				if prm, ok := x.R.(sqlm.Param); ok {
+					bind(prm, colKind(cr.Col), false)
+					return
+				}
+			}
+			if cr, ok := x.R.(sqlm.ColRef); ok {
+				if prm, ok := x.L.(sqlm.Param); ok {
+					bind(prm, colKind(cr.Col), false)
+					return
+				}
+			}
+			walk(x.L)
+			walk(x.R)
+		case sqlm.Not:
+			walk(x.X)
+		case sqlm.InList:
+			if cr, ok := x.X.(sqlm.ColRef); ok {
+				for _, it := range x.List {
+					if prm, ok := it.(sqlm.Param); ok {
+						bind(prm, colKind(cr.Col), len(x.List) == 1)
+					}
+				}
+			}
+		case sqlm.Between:
+			if cr, ok := x.X.(sqlm.ColRef); ok {
+				if prm, ok := x.Lo.(sqlm.Param); ok {
+					bind(prm, colKind(cr.Col), false)
+				}
+				if prm, ok := x.Hi.(sqlm.Param); ok {
+					bind(prm, colKind(cr.Col), false)
+				}
+			}
+		case sqlm.Param:
+			bind(x, sqlm.KInt, false)
+		}
+	}
+	switch s := p.(type) {
+	case *sqlm.Insert:
+		for i, cn := range s.Cols {
+			if prm, ok := s.Vals[i].(sqlm.Param); ok {
+				bind(prm, colKind(cn), false)
+			}
+		}
+	case *sqlm.Update:
+		for _, st := range s.Set {
+			if prm, ok := st.E.(sqlm.Param); ok {
+				bind(prm, colKind(st.Col), false)
+			} else {
+				walk(st.E)
+			}
+		}
+		if s.Where != nil {
+			walk(s.Where)
+		}
+	case *sqlm.Delete:
+		if s.Where != nil {
+			walk(s.Where)
+		}
+	}
+	return a
+}
+
+var writeStmtOnce sync.Once
+
+func (P *Program) registerWriteStmts() {
+	P.reg(VHDB+".NumWriteStatements", func(fr *frame, args []value) value {
+		in := fr.in
+		st := in.newDBState()
+		table := in.goStr(args[0], "table")
+		stmts := in.writeStatements(st, table)
+		writeStmtOnce.Do(func() {
+			var specs []wsStmt
+			for _, s := range stmts {
+				p, _ := sqlm.Parse(s)
+				var ps []wsParam
+				in.arbitraryArgs(st.db.Tables[table], p, &ps, true)
+				sort.SliceStable(ps, func(i, j int) bool { return false })
+				specs = append(specs, wsStmt{SQL: s, Params: ps})
+			}
+			b, _ := json.MarshalIndent(specs, "", " ")
+			os.MkdirAll("/verif/work", 0o755)
+			os.WriteFile("/verif/work/writestmts-"+table+".json", b, 0o644)
+		})
+		return in.intv(int64(len(stmts)))
+	})
+	P.reg(VHDB+".ExecWriteStatement", func(fr *frame, args []value) value {
+		in := fr.in
+		st := hDBOf(args[0])
+		table := in.goStr(args[1], "table")
+		stmts := in.writeStatements(st, table)
+		i := in.mustInt(args[2], "statement index")
+		p := in.parseSQL(st, stmts[i])
+		a := in.arbitraryArgs(st.db.Tables[table], p, nil, false)
+		local := st.db.Clone()
+		in.sqlExec(st, local, stmts[i], a)
+		st.db = local
+		in.path.notes = append(in.path.notes, "write statement exercised: "+sqlm.NormSQL(stmts[i]))
+		return nil
+	})
 }
